@@ -98,6 +98,33 @@ for g, texts in GRAMMARS:
             if fail: break
         if fail: break
     if fail: break
+# resume from an error state: parse(text, on_error=skip the offending token) must equal parse(text without that token)
+RES = [('start: "x" _items "b"\n_items: A | _items A\nA: "a"\nC: "c"\n%ignore C', None),
+       ('start: "x" _items "b"\n_items: A | _items A\nA: "a"\nC: "c"', ['xaacb', 'xacab', 'xaaacb', 'xcab', 'xaab']),
+       # merged LALR look-aheads: the wrong closer is rejected only after the reduction _items -> _items A has run
+       ('start: X _items B | Y _items K\n_items: _items A | A\nX: "x"\nY: "y"\nA: "a"\nB: "b"\nK: "k"\nC: "c"\nJ: "j"',
+        ['xaakb', 'xakab', 'yaabk', 'xaaakkab', 'yabak', 'xakb']),
+       ('start: item+\nitem: "(" _l ")"\n_l: N | _l "," N\nN: /[0-9]/\nJ: "j"', ['(1,2j)', '(1,2,3j)(4)', '(1j,2)', '(j1)'])]
+if not fail:
+    for g, texts in RES:
+        if texts is None: continue
+        p = Lark(g, parser='lalr')
+        for text in texts:
+            evals += 1; distinct += 1
+            bad = []
+            def on_error(e):
+                if isinstance(e, UnexpectedToken) and e.token.type in ('C', 'J', 'K', 'B') and e.token.type != '$END':
+                    bad.append(e.token.start_pos)
+                    return True
+                return False
+            try:
+                got = ('ok', p.parse(text, on_error=on_error))
+            except UnexpectedInput as e:
+                got = ('err', type(e).__name__)
+            cleaned = ''.join(ch for i, ch in enumerate(text) if i not in bad)
+            exp = tree_of(p, cleaned)
+            if got[0] == 'ok' and exp[0] == 'ok' and got[1] != exp[1]:
+                note('resume-after-error', {'grammar': g, 'text': text}, str(got[1]), 'parse(%r) = %s' % (cleaned, exp[1]))
 res = {'fails': bool(fail), 'evaluations': evals, 'distinct': distinct, 'failures': [fail] if fail else []}
 if fail: res.update(input=fail['input'], observed=fail['observed'], required=fail['required'])
 print(json.dumps(res, default=str))
